@@ -128,6 +128,16 @@ pub fn gen_edit(src: &mut Src<'_>, len: usize) -> (Edit, &'static str) {
 }
 
 fn tamper_case(env: &Env, src: &mut Src<'_>) -> CaseResult {
+    tamper_with(env, src, None)
+}
+
+/// openings: only channels of steps that reveal a value (pseudonyms, breakdown keys, conversion
+/// masks, MAC r) - a receiver must compare the two copies it gets
+fn tamper_reveal_case(env: &Env, src: &mut Src<'_>) -> CaseResult {
+    tamper_with(env, src, Some("reveal"))
+}
+
+fn tamper_with(env: &Env, src: &mut Src<'_>, only: Option<&str>) -> CaseResult {
     let bi = src.idx(N_BASE);
     let base = match baseline(env.seed, bi) {
         Ok(b) => b,
@@ -139,7 +149,10 @@ fn tamper_case(env: &Env, src: &mut Src<'_>) -> CaseResult {
     let corrupt = src.idx(3);
     // hierarchical stratification: at each gate depth choose one of the distinct next components
     // uniformly, so that every protocol step (not only the 256-fold bit steps) is hit
-    let mut cand: Vec<usize> = (0..base.by_sender[corrupt].len()).collect();
+    let mut cand: Vec<usize> = (0..base.by_sender[corrupt].len()).filter(|c| only.is_none_or(|o| base.by_sender[corrupt][*c].0.gate.contains(o))).collect();
+    if cand.is_empty() {
+        return Ok(CaseOk::new(false, &0u8, serde_json::Value::Null).label("no-matching-channel"));
+    }
     for depth in 2..7 {
         let mut m: BTreeMap<&str, Vec<usize>> = BTreeMap::new();
         for &c in &cand {
@@ -260,6 +273,9 @@ pub fn subs(_env: &Env) -> Vec<Sub> {
             "honest record run of the whole malicious hybrid query for each of the base inputs (1 and 2 shards, with and without padding, three output widths): must complete and equal the plaintext reference; yields the channel catalogue that the fault cases index"),
         Sub::random("tamper", 40, 1200, 60_000, tamper_case,
             "case = (base input, corrupt helper, channel of that helper chosen by hierarchical stratification over gate components (uniform choice among distinct next components at depths 1..5, then uniform), chunk ordinal first/last/random, edit: bit flip first/last/random byte, xor-all, replace, additive on 1/4/8/32-byte elements incl. modular for Fp32/Fp61); tampered run uses the same seeds as the baseline; accept iff an honest helper errs, or no output within max(5 s, 20x baseline), or the two honest helpers' shares alone reconstruct the baseline histogram; non-trivial = edit fired and changed bytes; distinct by (base, corrupt, gate, dest, shard, edit class, first/middle/last chunk)")
+        .shrink_iters(16),
+        Sub::random("tamper_reveal", 40, 400, 20_000, tamper_reveal_case,
+            "same as `tamper`, restricted to channels of steps whose gate contains `reveal` (openings of pseudonyms, breakdown keys, share-conversion masks, MAC keys): the receiver gets two copies of the missing share and must refuse to open when they differ")
         .shrink_iters(16),
     ]
 }
